@@ -34,9 +34,11 @@ def field_reads(b, l):
             if s["k"] != "assign":
                 continue
             r = s["r"]
-            if r["k"] in ("use", "un", "cast"):
+            if r["k"] in ("use", "cast", "repeat"):
                 visit_op(r["o"], i)
-            elif r["k"] in ("ref", "rawptr"):
+            elif r["k"] == "un":
+                visit_op(r["a"], i)
+            elif r["k"] in ("ref", "rawptr", "copyderef", "discr"):
                 visit_place(r["p"], i)
             elif r["k"] == "bin":
                 visit_op(r["a"], i)
